@@ -67,9 +67,29 @@ func addOneToBar(bar *progressbar.ProgressBar) {
 	}
 }
 
+// readTracker remembers a failed read. After a read error bufio.Scanner hands out the
+// unterminated rest of its buffer as one more token; that fragment is not a line of the
+// input and must not be processed.
+type readTracker struct {
+	r   io.Reader
+	err error
+}
+
+func (t *readTracker) Read(p []byte) (int, error) {
+	n, err := t.r.Read(p)
+	if err != nil && err != io.EOF {
+		t.err = err
+	}
+	return n, err
+}
+
 func processMongoLogStream(r io.Reader, outWriter io.Writer, bar *progressbar.ProgressBar) error {
-	scanner := bufio.NewScanner(r)
+	tracked := &readTracker{r: r}
+	scanner := bufio.NewScanner(tracked)
 	for scanner.Scan() {
+		if err := tracked.err; err != nil {
+			return err
+		}
 		line := scanner.Text()
 		// Ensure bar is not nil before accessing its state to prevent panics.
 		// The condition itself (empty line at max progress) is specific to the original logic.
